@@ -196,8 +196,14 @@ def replay(ctx, gridmod, hist, dt, n, tmproot):
 
 
 def spec_to_code(ctx, gridmod):
-    res = ctx.tlc("GridStoreDump", "MC_GridStore_%s.cfg" % ctx.tier, timeout=3000, heap="8g", coverage=True)
-    ctx.require_actions(res, ["Mutate", "Save", "WriteForeign", "Load", "DictRoundTrip", "Clone", "Clip"], "GridStore")
+    _spec_to_code(ctx, gridmod, ctx.tier, ["DoMutate", "DoSave", "DoForeign", "DoLoad", "DoDict", "DoClone", "DoClip"])
+    # one step deeper with the actions whose results feed each other (clip -> save -> load, clone -> clip -> save ...)
+    _spec_to_code(ctx, gridmod, "quick2", ["DoSave", "DoLoad", "DoClone", "DoClip"])
+
+
+def _spec_to_code(ctx, gridmod, cfg, actions):
+    res = ctx.tlc("GridStoreDump", "MC_GridStore_%s.cfg" % cfg, timeout=3000, heap="8g", coverage=True)
+    ctx.require_actions(res, actions, "GridStore_" + cfg)
     if res.violated:
         raise Machinery("GridStore.tla violates its contract: %s" % res.violated)
     tmproot = tempfile.mkdtemp(prefix="verif_c13_", dir=str(ctx.workfile("x").parent))
@@ -222,7 +228,7 @@ def spec_to_code(ctx, gridmod):
     if n < 1000:
         raise Machinery("GridStore generator: %d histories" % n)
     ctx.traces += n
-    ctx.part("spec_to_code", histories=n, mismatching=bad, states=res.distinct, per_dtype=per, exhaustive=True)
+    ctx.part("spec_to_code_" + cfg, histories=n, mismatching=bad, states=res.distinct, per_dtype=per, exhaustive=True)
 
 
 def catchment_roundtrip(ctx, gridmod, ncases):
